@@ -63,10 +63,15 @@ def concretize(rec):
             decls = [(d, 'xmlns:%s="%s"' % (d["p"], URI[d["u"]])) for d in it["ds"]]
             attrs = [(a, attr_text(a, info["ans"][j], n)) for j, a in enumerate(it["as"])]
             parts = ([t for _, t in decls] + [t for _, t in attrs]) if it["dfirst"] else ([t for _, t in attrs] + [t for _, t in decls])
-            src.append("<" + name + "".join(" " + t for t in parts) + ">x%d" % n)
             kept_d = [t for d, t in decls if d in info["kept"]["ds"]]
             kept_a = [t for (a, t), keep in zip(attrs, info["keepmask"]) if keep]
             kparts = (kept_d + kept_a) if it["dfirst"] else (kept_a + kept_d)
+            if it.get("sc"):
+                src.append("<" + name + "".join(" " + t for t in parts) + " />")
+                if info["kept"]["tag"]:
+                    exp.append("<" + name + "".join(" " + t for t in kparts) + " />")
+                continue
+            src.append("<" + name + "".join(" " + t for t in parts) + ">x%d" % n)
             if info["kept"]["tag"]:
                 exp.append("<" + name + "".join(" " + t for t in kparts) + ">x%d" % n)
             else:
